@@ -527,6 +527,9 @@ impl std::io::Write for FaultWrite {
         }
         match self.behav.pop_front() {
             Some(None) => Err(std::io::Error::new(std::io::ErrorKind::Interrupted, "interrupted")),
+            // `e` / `t`: this one call fails with WouldBlock / TimedOut and takes nothing; the writer is fine afterwards
+            Some(Some(c)) if c == usize::MAX - 7 => Err(std::io::Error::new(std::io::ErrorKind::WouldBlock, "would block")),
+            Some(Some(c)) if c == usize::MAX - 8 => Err(std::io::Error::new(std::io::ErrorKind::TimedOut, "timed out")),
             b => {
                 if self.budget == 0 {
                     if self.zero_when_full {
@@ -583,6 +586,10 @@ fn run_faultwrite(st: &State, t: &mut Toks) -> PResult<String> {
                     zero_when_full = true;
                 } else if s == "i" {
                     behav.push_back(None);
+                } else if s == "e" {
+                    behav.push_back(Some(usize::MAX - 7));
+                } else if s == "t" {
+                    behav.push_back(Some(usize::MAX - 8));
                 } else {
                     behav.push_back(Some(usize::from_str_radix(s, 16).map_err(|e| e.to_string())?));
                 }
